@@ -1005,9 +1005,10 @@ func (q *Queue) emitDSN(meta *QueueMetadata, header textproto.Header, failedRcpt
 		bodyTask.End()
 		return
 	}
-	if err = dsnDelivery.Commit(bodyCtx); err != nil {
-		bodyTask.End()
-		return
+	// Commit ends the delivery whatever its outcome (a pipeline has committed
+	// or aborted every target by then), there is nothing left to abort.
+	if commitErr := dsnDelivery.Commit(bodyCtx); commitErr != nil {
+		dl.Error("failed to enqueue DSN", commitErr, "dsn_id", dsnID)
 	}
 	bodyTask.End()
 }
